@@ -81,6 +81,8 @@ pub fn pool() -> Vec<V> {
         V::s("aé😀"),
         V::s("1"),
         V::s("UTC"),
+        V::s("°C"),
+        V::s("°"),
         V::s("("),
         V::Bytes(vec![]),
         V::Bytes(vec![0xff, 0xfe]),
@@ -354,9 +356,11 @@ impl Tokens {
 
 // ---- nesting ladders (child processes) --------------------------------------------
 
-pub const CONSTRUCTS: [&str; 16] = [
+pub const CONSTRUCTS: [&str; 24] = [
     "paren", "list", "map", "neg", "not", "index", "call", "method-chain", "ternary-right", "binary-left", "binary-right-paren",
     "macro", "fstring", "match", "has", "member-chain",
+    // left-nested chains of every other binary operator class (constant operands)
+    "chain-or", "chain-and", "chain-eq", "chain-lt", "chain-in", "chain-sub", "chain-mul", "chain-mod",
 ];
 
 pub fn ladder_source(construct: &str, depth: usize) -> String {
@@ -393,6 +397,14 @@ pub fn ladder_source(construct: &str, depth: usize) -> String {
         "match" => format!("{}1{}", "match x { case 1: ".repeat(d), " }".repeat(d)),
         "has" => format!("{}m.a{}", "has(".repeat(d), ")".repeat(d)),
         "member-chain" => format!("m{}", ".a".repeat(d)),
+        "chain-or" => format!("false{}", " || false".repeat(d)),
+        "chain-and" => format!("true{}", " && true".repeat(d)),
+        "chain-eq" => format!("true{}", " == true".repeat(d)),
+        "chain-lt" => format!("false{}", " < true".repeat(d)),
+        "chain-in" => format!("1{}", " in [1, true, false]".repeat(d)),
+        "chain-sub" => format!("1{}", " - 0".repeat(d)),
+        "chain-mul" => format!("1{}", " * 1".repeat(d)),
+        "chain-mod" => format!("1{}", " % 2".repeat(d)),
         _ => panic!("unknown construct"),
     }
 }
@@ -530,7 +542,7 @@ pub fn replay_families(t: Tier) -> Vec<Family<'static>> {
 
 pub fn run(t: Tier) -> i32 {
     let mut rep = Report::new(ID, t, "exploration");
-    rep.rule = "ops: every unary/binary operator, index, `in`, ternary over all ordered pairs of a 53-value boundary pool in literal and bound forms; builtins: every name found in the repository's function/macro/type tables called as function and as method with every argument tuple of arity 0..2 over the pool, arity 3..N over a 12-value pool, and 8 macro shapes; tokens: every space-joined string of 1..N tokens over a 50-token alphabet (operators, brackets, keywords, identifiers, extreme literals, hostile lexemes); ladders: 16 nesting constructs at increasing depths, each rung in its own child process, in two build profiles and on 8 MiB and 2 MiB stacks. Oracle: outcome is a value, an error or a syntax error, never a panic, abort or hang. Non-trivial = the case got past the parser (tokens) / the rung produced a value (ladders) / every ops and builtins case; distinct by case index".to_string();
+    rep.rule = "ops: every unary/binary operator, index, `in`, ternary over all ordered pairs of a 53-value boundary pool in literal and bound forms; builtins: every name found in the repository's function/macro/type tables called as function and as method with every argument tuple of arity 0..2 over the pool, arity 3..N over a 12-value pool, and 8 macro shapes; tokens: every space-joined string of 1..N tokens over a 50-token alphabet (operators, brackets, keywords, identifiers, extreme literals, hostile lexemes); ladders: 24 nesting constructs (incl. left-nested chains of every binary operator class) at increasing depths, each rung in its own child process, in two build profiles and on 8 MiB and 2 MiB stacks. Oracle: outcome is a value, an error or a syntax error, never a panic, abort or hang. Non-trivial = the case got past the parser (tokens) / the rung produced a value (ladders) / every ops and builtins case; distinct by case index".to_string();
     let fams = replay_families(t);
     let n_ladder_bins = std::env::var("VERIF_DEV_BIN").map(|_| 2).unwrap_or(1);
     for f in fams {
